@@ -151,6 +151,21 @@ def coq_property_file(res, pid, extra_files=()):
             res.broken.append(("proof", f, "%d theorems but only %d Print Assumptions" % (len(thms), n_pa)))
         else:
             closed += len(thms)
+            if res.tier == "thorough" and f.startswith("Properties/"):
+                # independent re-check of the compiled file and everything it depends on
+                mod = "ADF." + f[:-2].replace("/", ".")
+                rc2, out2 = sh("timeout 2400 coqchk -silent -o -Q . ADF %s" % mod, cwd=COQ, timeout=2500)
+                axl = ""
+                m2 = re.search(r"\* Axioms:\s*(.*?)(?:\n\s*\*|\Z)", out2, flags=re.S)
+                if m2:
+                    axl = " ".join(m2.group(1).split())
+                res.extra["coqchk"] = {"module": mod, "exit": rc2, "axioms": axl[:300]}
+                if rc2 != 0:
+                    res.broken.append(("proof", "coqchk " + mod, out2[-2000:]))
+                elif axl and "<none>" not in axl:
+                    bad = [a for a in re.split(r"[\s,]+", axl) if a and a.split(".")[-1] not in ALLOWED_AXIOMS]
+                    if bad:
+                        res.broken.append(("proof", "coqchk " + mod, "axioms reported by coqchk: " + axl))
     res.cov["obligations"] += nthm
     res.cov["discharged"] += closed
     res.extra.setdefault("theorems", []).extend(names)
